@@ -39,11 +39,14 @@ def run(chk):
     # ---------------- R1 normalisation
     for eq_type in ('statio_PDE', 'nonstatio_PDE'):
         for kind in ('PINN', 'SPINN'):
-            for d in ((1, 2) if thorough else (2,)):
-                cfg = {"loss": eq_type, "net": kind, "d": d}
+            for d, m_u in (((1, 1), (2, 1), (2, 2)) if thorough else ((2, 1), (2, 2))):
+                if kind == 'SPINN' and m_u > 1:
+                    continue   # a SPINN has no notion of solution slice
+                cfg = {"loss": eq_type, "net": kind, "d": d, "outputs": m_u, "slice_solution": "[0:1]"}
 
-                def go(eq_type=eq_type, kind=kind, d=d):
-                    S = SingleLoss(E, eq_type, kind, d=d, m_u=1, terms=('norm',))
+                def go(eq_type=eq_type, kind=kind, d=d, m_u=m_u):
+                    S = SingleLoss(E, eq_type, kind, d=d, m_u=m_u, terms=('norm',))
+                    S.u.slice_solution = slice(0, 1)     # the solution is output 0, other outputs are auxiliary
                     total, terms = S.evaluate()
                     w, L = S.w['norm_loss'], K('L')
                     one = Poly.const(1)
